@@ -901,6 +901,7 @@ theorem lemma_wt_step (kinds : List Kind) (s : St) (i : Nat) (k : Kind) (st : St
     | setName r =>
       exact lemma_wt_setStatus kinds _ i _ (lemma_wt_core kinds s _ _ hW) (by simp) (by simp) (by simp)
     | urlFor r => exact lemma_wt_setStatus kinds s i _ hW (by simp) (by simp) (by simp)
+    | whereBad r => exact lemma_wt_setStatus kinds s i _ hW (by simp) (by simp) (by simp)
 
 /-- `Own` under every scheduler step -/
 theorem lemma_own_step (kinds : List Kind) (s : St) (i : Nat) (k : Kind) (st : Status)
@@ -946,6 +947,7 @@ theorem lemma_own_step (kinds : List Kind) (s : St) (i : Nat) (k : Kind) (st : S
       obtain ⟨h1, h2⟩ := lemma_mut_ctl s.core (.setName r) rfl
       exact lemma_own_set_neutral s i .start .finished hs rfl rfl _ h1 h2 hO
     | urlFor r => exact lemma_own_set_neutral s i .start .finished hs rfl rfl s.core rfl rfl hO
+    | whereBad r => exact lemma_own_set_neutral s i .start .finished hs rfl rfl s.core rfl rfl hO
 
 
 /-! ### progress -/
@@ -1012,6 +1014,7 @@ theorem lemma_eff_neutral (kinds : List Kind) (s : St) (i : Nat) (st : Status) (
     | whereInt r => exact lemma_status_differs s _ i _ _ hs (lemma_setStatus_self _ i .finished hi) (by simp)
     | setName r => exact lemma_status_differs s _ i _ _ hs (lemma_setStatus_self _ i .finished hi) (by simp)
     | urlFor r => exact lemma_status_differs s _ i _ _ hs (lemma_setStatus_self s i .finished hi) (by simp)
+    | whereBad r => exact lemma_status_differs s _ i _ _ hs (lemma_setStatus_self s i .finished hi) (by simp)
   · -- atEntry: a request
     obtain ⟨t, v, hk'⟩ := hW.entry i hs
     rw [hk] at hk'
